@@ -455,6 +455,7 @@ int c12_batch(const Args &a) {
         if (cr.chance(1, 12)) { g.ntasks = 5 + cr.below(3); g.max_ops = 1 + cr.below(2); }
         int nf = 1 + cr.below(4);
         for (int k = 0; k < nf; k++) g.fams.push_back(cr.below(FAM_NFAM));
+        if (getenv("VERIF_ONLY_FAM")) { g.fams.clear(); g.fams.push_back(atoi(getenv("VERIF_ONLY_FAM")) % FAM_NFAM); } // diagnostics
         g.faults = cr.chance(1, 2) && !getenv("VERIF_NOFAULTS");
         g.violations = cr.chance(3, 4);
         if (cr.chance(1, 5) || getenv("VERIF_ADJACENT_ONLY")) {
@@ -593,17 +594,22 @@ int c12_batch(const Args &a) {
         bool file_plan = false; // calls that open files: descriptor numbers and path names are process-wide
         for (auto &tp : plan.tasks)
             for (auto &op : tp.ops) file_plan |= op.fn >= 0 && op.fn < FN_COUNT && g_fn[op.fn].fam == FAM_FILE;
-        if (g.adjacent || file_plan) {
+        {
+            // (every plan: a call's conflict points include the places where it releases or moves a heap block - what
+            // becomes of the old block is up to whoever allocates next; 24 at most for ordinary plans)
+            size_t cap1 = (g.adjacent || file_plan) ? 48 : 24;
             for (size_t t = 0; t < plan.tasks.size(); t++)
                 for (size_t o = 0; o < plan.tasks[t].ops.size(); o++)
                     for (int e = 0; e < solo.res[t][o].n_edge; e++)
                         for (size_t w = 0; w < plan.tasks.size(); w++)
-                            if (w != t && enumerated.size() < 48) {
+                            if (w != t && enumerated.size() < cap1) {
                                 Schedule es;
                                 es.start = (int)t;
                                 es.sw.push_back({(int)t, (int)o, solo.res[t][o].edge_ev[e], (int)w});
                                 enumerated.push_back(es);
                             }
+        }
+        if (g.adjacent || file_plan) {
             // pairs: A stopped at one of its conflict points, B run up to one of its own, A run to its end, then B
             // (neither call completes inside the other: what a call does to a descriptor or a shared word it no
             // longer owns hits the other call while that one is still holding it)
